@@ -31,6 +31,16 @@ def runLines {σ : Type} (step : σ → Line → Step σ) (init : σ) (lines : A
   let mut rep : Report := {}
   let mut i := 0
   for ln in lines do
+    -- `fault k op …`: a call whose callback panicked (recovered by the harness) — a failed call has no
+    -- effect the model or the specification could see, so the line is skipped and only the FOLLOWING
+    -- lines are judged; it must have come back, though.  `decoy n`: other instances of the same type were
+    -- operated — instances share nothing, skipped likewise.
+    if ln.op == "fault" || ln.op == "decoy" then
+      if ln.res == [.atom "hang"] && rep.spec.isNone then
+        rep := { rep with spec := some (i, s!"terminates:{ln.op}") }
+      rep := { rep with tags := addTags rep.tags [ln.op] }
+      i := i + 1
+      continue
     let r := step st ln
     st := r.st
     match r.bad with
